@@ -3,7 +3,10 @@ Kernel: violations, comparison helpers, scenario execution, seams.
 """
 import copy
 import json
+import os
 import random
+import signal
+import threading
 import traceback
 import warnings
 
@@ -23,6 +26,10 @@ class Violation(Exception):
         self.mismatch = mismatch
         self.detail = detail
         self.step = step
+
+
+class RunTimeout(BaseException):
+    pass
 
 
 class SkipOp(Exception):
@@ -52,6 +59,8 @@ def call(f, *a, **kw):
     except Violation:
         raise
     except SkipOp:
+        raise
+    except RunTimeout:
         raise
     except BaseException as e:
         if isinstance(e, (KeyboardInterrupt, SystemExit, MemoryError)):
@@ -229,11 +238,24 @@ def execute(mod, scenario, keep_events=False):
     # that no run depends on what an earlier run in the same process left.
     np.random.seed(scenario.get('seed', 0) & 0x7FFFFFFF)
     random.seed(scenario.get('seed', 0))
+    limit = float(os.environ.get('DST_RUN_TIMEOUT', '30'))
+    use_alarm = (threading.current_thread() is threading.main_thread()
+                 and hasattr(signal, 'setitimer'))
+    if use_alarm:
+        def _on_alarm(signum, frame):
+            raise RunTimeout()
+        old_handler = signal.signal(signal.SIGALRM, _on_alarm)
+        signal.setitimer(signal.ITIMER_REAL, limit)
     try:
         with warnings.catch_warnings():
             warnings.simplefilter('ignore')
             cov = mod.run(scenario, w)
         res['cov'] = cov or {}
+    except RunTimeout:
+        # wall-clock guard of the harness (a pathological integration in the
+        # solver stand-in): the run is abandoned and counted, never a pass
+        # for the whole batch if it happens often
+        res.update(status='timeout', detail='run exceeded %.0fs' % limit)
     except Violation as v:
         res.update(status='violation', oracle=v.oracle, mismatch=v.mismatch,
                    detail=str(v.detail)[:2000], step=v.step)
@@ -243,6 +265,9 @@ def execute(mod, scenario, keep_events=False):
             raise
         res.update(status='harness_error', detail=traceback.format_exc()[-3000:])
     finally:
+        if use_alarm:
+            signal.setitimer(signal.ITIMER_REAL, 0)
+            signal.signal(signal.SIGALRM, old_handler)
         _world.install(None)
     res['digest'] = w.digest()
     res['n_events'] = w.n_events
